@@ -65,6 +65,12 @@ Proof.
   - destruct (IH _ _ H) as (s' & Hl & Hs). exists s'. split; [now right | exact Hs].
 Qed.
 
+Lemma filter_flag_split {A} (g : A * bool -> bool) (l : list (A * bool)) :
+  length (filter g l) = length (filter (fun r => Bool.eqb (snd r) false && g r) l) + length (filter (fun r => Bool.eqb (snd r) true && g r) l).
+Proof.
+  induction l as [|[a f] l IH]; [reflexivity|]. simpl. destruct f; simpl; destruct (g (a, _)); simpl; rewrite IH; lia.
+Qed.
+
 (* ---------------------------------------------------------------- the tables extracted from the source *)
 (* what the induction needs of `_required_variables_from_child_` (AND: BinaryOperator, ElseIf: OR) *)
 Lemma req_tables :
@@ -865,5 +871,317 @@ Section DF.
     exists e. split; [exact V|]. split.
     - apply (Tb' eq_refl e V). eapply (bind_sel_ext h dom U); eassumption.
     - destruct (bind_sel_vars_bound h dom xs b' b2 H2) as [_ Q]. rewrite (row_of_vars h dom) by exact Q. now apply (row_agrees U).
+  Qed.
+
+  (* ================================================================================================================
+     EVERY VARIABLE SELECTED: nothing is ever dropped - the de-duplicating evaluator IS the P-model, row for row.
+     (The rows a node emits are pairwise disjoint - no assignment agrees with two of them -, and with every variable required
+     a recorded row can only swallow a row that extends it.)  State invariant: every recorded entry is INCOMPATIBLE with the
+     activation at hand. *)
+  Hypothesis dom_nonempty : forall x, In x U -> dom x <> [].
+
+  Fixpoint entries (s : dst) : list binding :=
+    match s with DL => [] | DN a b l r => a ++ b ++ entries l ++ entries r end.
+  Definition Incomp (c b : binding) : Prop := forall e, valid e -> agreesb c e = true -> agreesb b e = true -> False.
+  Definition Ext (c b : binding) : Prop := forall e, agreesb c e = true -> agreesb b e = true.
+  Definition Fresh (s : dst) (b : binding) : Prop := forall c, In c (entries s) -> Incomp c b.
+
+  Fixpoint top_of (k : ctx) : list key :=
+    match k with KTop R => R | KAndL k' _ | KAndR k' | KElseL k' _ | KElseR k' => top_of k' end.
+  Lemma req_from_top k : forall t, incl (top_of k) (req_from k t).
+  Proof.
+    induction k as [R|k IH y|k IH|k IH y|k IH]; intros t; cbn [req_from top_of]; try apply incl_refl; try (apply incl_appr, IH). apply IH.
+  Qed.
+
+  Lemma exists_valid_ext b : in_dom b -> exists e, valid e /\ agreesb b e = true.
+  Proof.
+    intros D. set (e0 := fun x => hd (VA ANone) (dom x)).
+    assert (V0 : valid e0). { intros x Hx. unfold e0. specialize (dom_nonempty x Hx). destruct (dom x); [congruence | now left]. }
+    exists (over b e0). split; [now apply over_valid | apply over_agrees].
+  Qed.
+
+  Lemma restr_ext R b : incl U R -> Ext (restr R b) b.
+  Proof.
+    intros I e A. unfold EvalPure_Facts.agreesb in *. rewrite forallb_forall in *. intros x Hx. specialize (A x Hx).
+    rewrite lookup_restr in A.
+    assert (M : existsb (Nat.eqb x) R = true) by (apply existsb_exists; exists x; split; [now apply I | apply Nat.eqb_refl]).
+    now rewrite M in A.
+  Qed.
+
+  Lemma sub_agrees c R b e : sub c (restr R b) = true -> agreesb b e = true -> agreesb c e = true.
+  Proof.
+    intros S A. unfold EvalPure_Facts.agreesb. apply forallb_forall. intros x Hx. destruct (lookup c x) as [v|] eqn:L; [|reflexivity].
+    pose proof (sub_lookup _ _ _ _ S L) as L1. rewrite lookup_restr in L1. destruct (existsb (Nat.eqb x) R); [|discriminate].
+    rewrite (agrees_lookup U b e x v A Hx L1). apply val_eqb_refl.
+  Qed.
+
+  (* a row incompatible with everything recorded is never a duplicate *)
+  Lemma dup_check_fresh R seen b : in_dom b -> (forall c, In c seen -> Incomp c b) ->
+    fst (dup_check R seen b) = false /\ (snd (dup_check R seen b) = seen \/ snd (dup_check R seen b) = seen ++ [restr R b]).
+  Proof.
+    intros D F. unfold dup_check. destruct (restr R b) as [|kv ro] eqn:Er; [split; [reflexivity | now left]|]. rewrite <- Er.
+    destruct (existsb (fun c => sub c (restr R b)) seen) eqn:Ex.
+    - exfalso. apply existsb_exists in Ex as (c & Hc & S). destruct (exists_valid_ext b D) as (e & V & A).
+      exact (F c Hc e V (sub_agrees c R b e S A) A).
+    - split; [reflexivity | now right].
+  Qed.
+
+  Lemma incomp_ext c b b' : Incomp c b -> Ext b' b -> Incomp c b'.
+  Proof. intros I E e V Ac Ab. exact (I e V Ac (E e Ab)). Qed.
+  Lemma ext_disj_incomp c p q : Ext c p -> (forall e, valid e -> agreesb p e = true -> agreesb q e = true -> False) -> Incomp c q.
+  Proof. intros E D e V Ac Aq. exact (D e V (E e Ac) Aq). Qed.
+  Lemma ext_trans a b c : Ext a b -> Ext b c -> Ext a c.
+  Proof. intros H1 H2 e A. now apply H2, H1. Qed.
+
+  (* the rows of one activation of the P-model are pairwise disjoint *)
+  Definition Disj (p q : binding * bool) : Prop := forall e, valid e -> agreesb (fst p) e = true -> agreesb (fst q) e = true -> False.
+  Lemma at_most_one_disjoint (l : list (binding * bool)) :
+    (forall e, valid e -> length (filter (fun r => agreesb (fst r) e) l) <= 1) -> ForallOrdPairs Disj l.
+  Proof.
+    induction l as [|p l IH]; intros H; [constructor|]. constructor.
+    - apply Forall_forall. intros q Hq e V Ap Aq. specialize (H e V). cbn [filter] in H. rewrite Ap in H. cbn [length] in H.
+      assert (Hin : In q (filter (fun r => agreesb (fst r) e) l)) by (apply filter_In; now split).
+      destruct (filter (fun r => agreesb (fst r) e) l); [destruct Hin | cbn [length] in H; lia].
+    - apply IH. intros e V. specialize (H e V). cbn [filter] in H. destruct (agreesb (fst p) e); cbn [length] in H; lia.
+  Qed.
+  Lemma eval_disjoint c b ywf : basic c = true -> ForallOrdPairs Disj (eval c b ywf).
+  Proof.
+    intros B. apply at_most_one_disjoint. intros e V. destruct (agreesb b e) eqn:A.
+    - destruct (eval_cover h dom U dom_nodup c B b ywf e A V) as [CF CT]. unfold cover in CF, CT.
+      assert (E : length (filter (fun r => agreesb (fst r) e) (eval c b ywf)) =
+                  length (filter (fun r => Bool.eqb (snd r) false && agreesb (fst r) e) (eval c b ywf)) +
+                  length (filter (fun r => Bool.eqb (snd r) true && agreesb (fst r) e) (eval c b ywf))).
+      { apply filter_flag_split. }
+      rewrite E, CF, CT. destruct (isat c e), ywf; cbn; lia.
+    - rewrite filter_all_false; [cbn; lia|]. intros [b1 f1] H1. cbn [fst]. destruct (agreesb b1 e) eqn:A1; [|reflexivity].
+      rewrite (eval_ext h dom U c B b ywf b1 f1 e H1 A1) in A. discriminate.
+  Qed.
+
+  Lemma entries_parts s : incl (d_sT s ++ d_sF s ++ entries (d_l s) ++ entries (d_r s)) (entries s).
+  Proof. destruct s; cbn [d_sT d_sF d_l d_r entries app]; apply incl_refl. Qed.
+
+  (* what one activation of an operand is assumed to do (the induction hypothesis, for the operand [y]) *)
+  Definition operand_ok (y : cond) (ky : ctx) (ywf : bool) : Prop :=
+    forall b1 sr, in_dom b1 -> Fresh sr b1 ->
+      fst (evalD y ky b1 ywf sr) = eval y b1 ywf /\
+      (forall c, In c (entries (snd (evalD y ky b1 ywf sr))) -> In c (entries sr) \/ Ext c b1).
+
+  Lemma disj_head (p : binding * bool) l : ForallOrdPairs Disj (p :: l) -> Forall (Disj p) l /\ ForallOrdPairs Disj l.
+  Proof. intros H. inversion H; subst. now split. Qed.
+
+  (* ---- the loop of AND ---- *)
+  Lemma and_loop_nodup R y ky ywf : incl U R -> basic y = true -> operand_ok y ky ywf ->
+    forall ls sF sr, ForallOrdPairs Disj ls -> (forall p, In p ls -> in_dom (fst p)) ->
+      (forall c, In c (sF ++ entries sr) -> forall p, In p ls -> Incomp c (fst p)) ->
+      fst (smap (and_step R (fun b1 s1 => evalD y ky b1 ywf s1) ywf) ls (sF, sr)) =
+        flat_map (fun p : binding * bool => if snd p then (if ywf then [(fst p, true)] else []) else eval y (fst p) ywf) ls /\
+      (forall c, In c (fst (snd (smap (and_step R (fun b1 s1 => evalD y ky b1 ywf s1) ywf) ls (sF, sr))) ++
+                       entries (snd (snd (smap (and_step R (fun b1 s1 => evalD y ky b1 ywf s1) ywf) ls (sF, sr))))) ->
+         In c (sF ++ entries sr) \/ exists p, In p ls /\ Ext c (fst p)).
+  Proof.
+    intros IU By Hy. induction ls as [|[b1 f1] ls IH]; intros sF sr HD Hdom HF.
+    - cbn [smap fst snd flat_map]. split; [reflexivity | intros c Hc; now left].
+    - rewrite smap_cons. cbn [flat_map fst snd]. destruct (disj_head _ _ HD) as [Hh Ht]. rewrite Forall_forall in Hh.
+      assert (Db1 : in_dom b1) by (apply (Hdom (b1, f1)); now left).
+      destruct f1.
+      + (* a false left row: the duplicate check finds nothing *)
+        destruct ywf.
+        * rewrite and_step_T. cbn [fst snd]. unfold pass_all, dstep. cbn [fst snd].
+          destruct (dup_check_fresh R sF b1 Db1) as [Dn Ds].
+          { intros c Hc. apply (HF c (in_or_app _ _ _ (or_introl Hc)) (b1, true)). now left. }
+          destruct (dup_check R sF b1) as [d sF']. cbn [fst snd] in Dn, Ds. subst d. cbn [fst snd].
+          destruct (IH sF' sr Ht (fun p Hp => Hdom p (or_intror Hp))) as [I1 I2].
+          { intros c Hc p Hp. apply in_app_or in Hc as [Hc|Hc].
+            - destruct Ds as [->| ->]; [apply (HF c (in_or_app _ _ _ (or_introl Hc)) p (or_intror Hp))|].
+              apply in_app_or in Hc as [Hc|[<-|[]]]; [apply (HF c (in_or_app _ _ _ (or_introl Hc)) p (or_intror Hp))|].
+              apply (ext_disj_incomp _ b1 (fst p) (restr_ext R b1 IU)). intros e V A1 A2. exact (Hh p Hp e V A1 A2).
+            - apply (HF c (in_or_app _ _ _ (or_intror Hc)) p (or_intror Hp)). }
+          split; [cbn [app]; now rewrite I1|].
+          intros c Hc. destruct (I2 c Hc) as [Hc'|(p & Hp & Ep)]; [|right; exists p; split; [now right | exact Ep]].
+          apply in_app_or in Hc' as [Hc'|Hc']; [|left; apply in_or_app; now right].
+          destruct Ds as [->| ->]; [left; apply in_or_app; now left|].
+          apply in_app_or in Hc' as [Hc'|[<-|[]]]; [left; apply in_or_app; now left|].
+          right. exists (b1, true). split; [now left | apply (restr_ext R b1 IU)].
+        * rewrite and_step_Tn. cbn [fst snd app].
+          destruct (IH sF sr Ht (fun p Hp => Hdom p (or_intror Hp)) (fun c Hc p Hp => HF c Hc p (or_intror Hp))) as [I1 I2].
+          split; [exact I1|]. intros c Hc. destruct (I2 c Hc) as [Hc'|(p & Hp & Ep)]; [now left | right; exists p; split; [now right | exact Ep]].
+      + (* a true left row: the right operand, from a state in which nothing recorded is compatible with the row *)
+        rewrite and_step_F. cbn [fst snd].
+        destruct (Hy b1 sr Db1) as [Y1 Y2].
+        { intros c Hc. apply (HF c (in_or_app _ _ _ (or_intror Hc)) (b1, false)). now left. }
+        rewrite Y1.
+        destruct (IH sF (snd (evalD y ky b1 ywf sr)) Ht (fun p Hp => Hdom p (or_intror Hp))) as [I1 I2].
+        { intros c Hc p Hp. apply in_app_or in Hc as [Hc|Hc]; [apply (HF c (in_or_app _ _ _ (or_introl Hc)) p (or_intror Hp))|].
+          destruct (Y2 c Hc) as [Hc'|Ec]; [apply (HF c (in_or_app _ _ _ (or_intror Hc')) p (or_intror Hp))|].
+          apply (ext_disj_incomp _ b1 (fst p) Ec). intros e V A1 A2. exact (Hh p Hp e V A1 A2). }
+        split; [now rewrite I1|].
+        intros c Hc. destruct (I2 c Hc) as [Hc'|(p & Hp & Ep)]; [|right; exists p; split; [now right | exact Ep]].
+        apply in_app_or in Hc' as [Hc'|Hc']; [left; apply in_or_app; now left|].
+        destruct (Y2 c Hc') as [Hc''|Ec]; [left; apply in_or_app; now right | right; exists (b1, false); split; [now left | exact Ec]].
+  Qed.
+
+  (* ---- ElseIf: the duplicate check on the TRUE rows of the right side finds nothing ---- *)
+  Lemma else_out_nodup R : incl U R -> forall rs sT, ForallOrdPairs Disj rs -> (forall q, In q rs -> in_dom (fst q)) ->
+    (forall c, In c sT -> forall q, In q rs -> Incomp c (fst q)) ->
+    fst (smap (else_out R) rs sT) = rs /\
+    (forall c, In c (snd (smap (else_out R) rs sT)) -> In c sT \/ exists q, In q rs /\ Ext c (fst q)).
+  Proof.
+    intros IU. induction rs as [|[b2 f2] rs IH]; intros sT HD Hdom HF.
+    - cbn [smap fst snd]. split; [reflexivity | intros c Hc; now left].
+    - rewrite smap_cons. destruct (disj_head _ _ HD) as [Hh Ht]. rewrite Forall_forall in Hh.
+      assert (Db2 : in_dom b2) by (apply (Hdom (b2, f2)); now left).
+      destruct f2.
+      + assert (E : else_out R (b2, true) sT = ([(b2, true)], sT)) by reflexivity. rewrite E. clear E.
+        cbn [fst snd]. destruct (IH sT Ht (fun q Hq => Hdom q (or_intror Hq)) (fun c Hc q Hq => HF c Hc q (or_intror Hq))) as [I1 I2].
+        split; [cbn [app]; now rewrite I1|]. intros c Hc. destruct (I2 c Hc) as [Hc'|(q & Hq & Eq)]; [now left | right; exists q; split; [now right | exact Eq]].
+      + assert (E : else_out R (b2, false) sT = ((if fst (dup_check R sT b2) then [] else [(b2, false)]), snd (dup_check R sT b2))).
+        { unfold else_out. cbn [fst snd]. destruct (dup_check R sT b2) as [d sT']. destruct d; reflexivity. }
+        rewrite E. clear E.
+        destruct (dup_check_fresh R sT b2 Db2) as [Dn Ds]; [intros c Hc; apply (HF c Hc (b2, false)); now left|].
+        destruct (dup_check R sT b2) as [d sT']. cbn [fst snd] in Dn, Ds. subst d. cbn [fst snd].
+        destruct (IH sT' Ht (fun q Hq => Hdom q (or_intror Hq))) as [I1 I2].
+        { intros c Hc q Hq. destruct Ds as [->| ->]; [apply (HF c Hc q (or_intror Hq))|].
+          apply in_app_or in Hc as [Hc|[<-|[]]]; [apply (HF c Hc q (or_intror Hq))|].
+          apply (ext_disj_incomp _ b2 (fst q) (restr_ext R b2 IU)). intros e V A1 A2. exact (Hh q Hq e V A1 A2). }
+        split; [cbn [app]; now rewrite I1|].
+        intros c Hc. destruct (I2 c Hc) as [Hc'|(q & Hq & Eq)]; [|right; exists q; split; [now right | exact Eq]].
+        destruct Ds as [->| ->]; [now left|]. apply in_app_or in Hc' as [Hc'|[<-|[]]]; [now left|].
+        right. exists (b2, false). split; [now left | apply (restr_ext R b2 IU)].
+  Qed.
+
+  Lemma else_loop_nodup R y ky ywf : incl U R -> basic y = true -> operand_ok y ky ywf ->
+    forall ls sT sr, ForallOrdPairs Disj ls -> (forall p, In p ls -> in_dom (fst p)) ->
+      (forall c, In c (sT ++ entries sr) -> forall p, In p ls -> Incomp c (fst p)) ->
+      fst (smap (else_step R (fun b1 s1 => evalD y ky b1 ywf s1)) ls (sT, sr)) =
+        flat_map (fun p : binding * bool => if snd p then eval y (fst p) ywf else [(fst p, false)]) ls /\
+      (forall c, In c (fst (snd (smap (else_step R (fun b1 s1 => evalD y ky b1 ywf s1)) ls (sT, sr))) ++
+                       entries (snd (snd (smap (else_step R (fun b1 s1 => evalD y ky b1 ywf s1)) ls (sT, sr))))) ->
+         In c (sT ++ entries sr) \/ exists p, In p ls /\ Ext c (fst p)).
+  Proof.
+    intros IU By Hy. induction ls as [|[b1 f1] ls IH]; intros sT sr HD Hdom HF.
+    - cbn [smap fst snd flat_map]. split; [reflexivity | intros c Hc; now left].
+    - rewrite smap_cons. cbn [flat_map fst snd]. destruct (disj_head _ _ HD) as [Hh Ht]. rewrite Forall_forall in Hh.
+      assert (Db1 : in_dom b1) by (apply (Hdom (b1, f1)); now left).
+      destruct f1.
+      + (* a false left row: the right operand, then the duplicate check on its true rows *)
+        assert (E : else_step R (fun b0 s1 => evalD y ky b0 ywf s1) (b1, true) (sT, sr) =
+                    (fst (smap (else_out R) (fst (evalD y ky b1 ywf sr)) sT),
+                     (snd (smap (else_out R) (fst (evalD y ky b1 ywf sr)) sT), snd (evalD y ky b1 ywf sr)))).
+        { unfold else_step. cbn [fst snd]. destruct (evalD y ky b1 ywf sr) as [rs sr']. cbn [fst snd].
+          destruct (smap (else_out R) rs sT); reflexivity. }
+        rewrite E. cbn [fst snd]. clear E.
+        destruct (Hy b1 sr Db1) as [Y1 Y2].
+        { intros c Hc. apply (HF c (in_or_app _ _ _ (or_intror Hc)) (b1, true)). now left. }
+        rewrite Y1.
+        assert (RowExt : forall q, In q (eval y b1 ywf) -> Ext (fst q) b1).
+        { intros [b2 f2] Hq e A. eapply (eval_ext h dom U); eassumption. }
+        destruct (else_out_nodup R IU (eval y b1 ywf) sT (eval_disjoint y b1 ywf By)) as [O1 O2].
+        { intros [b2 f2] Hq. eapply (eval_in_dom h dom U); eassumption. }
+        { intros c Hc q Hq. apply (incomp_ext c b1 (fst q)); [|now apply RowExt].
+          apply (HF c (in_or_app _ _ _ (or_introl Hc)) (b1, true)). now left. }
+        rewrite O1.
+        destruct (IH (snd (smap (else_out R) (eval y b1 ywf) sT)) (snd (evalD y ky b1 ywf sr)) Ht (fun p Hp => Hdom p (or_intror Hp))) as [I1 I2].
+        { intros c Hc p Hp.
+          assert (Dp : forall c', Ext c' b1 -> Incomp c' (fst p)).
+          { intros c' E'. apply (ext_disj_incomp _ b1 (fst p) E'). intros e V A1 A2. exact (Hh p Hp e V A1 A2). }
+          apply in_app_or in Hc as [Hc|Hc].
+          - destruct (O2 c Hc) as [Hc'|(q & Hq & Eq)]; [apply (HF c (in_or_app _ _ _ (or_introl Hc')) p (or_intror Hp))|].
+            apply Dp. eapply ext_trans; [exact Eq | now apply RowExt].
+          - destruct (Y2 c Hc) as [Hc'|Ec]; [apply (HF c (in_or_app _ _ _ (or_intror Hc')) p (or_intror Hp)) | now apply Dp]. }
+        split; [now rewrite I1|].
+        intros c Hc. destruct (I2 c Hc) as [Hc'|(p & Hp & Ep)]; [|right; exists p; split; [now right | exact Ep]].
+        apply in_app_or in Hc' as [Hc'|Hc'].
+        * destruct (O2 c Hc') as [Hc''|(q & Hq & Eq)]; [left; apply in_or_app; now left|].
+          right. exists (b1, true). split; [now left|]. eapply ext_trans; [exact Eq | now apply RowExt].
+        * destruct (Y2 c Hc') as [Hc''|Ec]; [left; apply in_or_app; now right | right; exists (b1, true); split; [now left | exact Ec]].
+      + (* a true left row: passed on *)
+        assert (E : else_step R (fun b0 s1 => evalD y ky b0 ywf s1) (b1, false) (sT, sr) = ([(b1, false)], (sT, sr))) by reflexivity.
+        rewrite E. cbn [fst snd app].
+        destruct (IH sT sr Ht (fun p Hp => Hdom p (or_intror Hp)) (fun c Hc p Hp => HF c Hc p (or_intror Hp))) as [I1 I2].
+        split; [now rewrite I1|]. intros c Hc. destruct (I2 c Hc) as [Hc'|(p & Hp & Ep)]; [now left | right; exists p; split; [now right | exact Ep]].
+  Qed.
+
+  (* ---- every node, every activation: from a state in which nothing recorded is compatible with the incoming row, the D-model
+     produces the P-model's rows, and whatever it records extends the incoming row ---- *)
+  Theorem evalD_no_dup c : basic c = true -> forall k ywf, incl U (top_of k) -> operand_ok c k ywf.
+  Proof.
+    induction c as [o l r0|t inv|x IHx y IHy|x IHx y IHy|u0 c0 IH|sel c0 IH]; intros B k ywf IU b s Db HF;
+      try (rewrite evalD_leaf by reflexivity; cbn [fst snd]; split; [reflexivity | intros c Hc; now left]).
+    - (* AND *)
+      pose proof B as B'. cbn [EvalPure_Facts.basic] in B'. apply andb_prop in B' as [Bx By].
+      rewrite evalD_and. cbn [fst snd].
+      pose proof (entries_parts s) as EP.
+      destruct (IHx Bx (KAndL k y) ywf IU b (d_l s) Db) as [X1 X2].
+      { intros c Hc. apply HF, EP. apply in_or_app; right. apply in_or_app; right. apply in_or_app; now left. }
+      rewrite X1.
+      assert (RowExt : forall p, In p (eval x b ywf) -> Ext (fst p) b).
+      { intros [b1 f1] Hp e A. exact (eval_ext h dom U x Bx b ywf b1 f1 e Hp A). }
+      destruct (and_loop_nodup (req_from k (Some false)) y (KAndR k) ywf (incl_tran IU (req_from_top k _)) By (IHy By (KAndR k) ywf IU)
+                  (eval x b ywf) (d_sF s) (d_r s) (eval_disjoint x b ywf Bx)) as [L1 L2].
+      { intros [b1 f1] Hp. exact (eval_in_dom h dom U x Bx b ywf b1 f1 Db Hp). }
+      { intros c Hc p Hp. apply (incomp_ext c b (fst p)); [|now apply RowExt]. apply HF, EP.
+        apply in_app_or in Hc as [Hc|Hc]; apply in_or_app; right; apply in_or_app; [now left | right; apply in_or_app; now right]. }
+      split; [rewrite L1; reflexivity|].
+      intros c Hc. cbn [entries] in Hc.
+      apply in_app_or in Hc as [Hc|Hc]; [left; apply EP, in_or_app; now left|].
+      assert (G : In c (fst (snd (smap (and_step (req_from k (Some false)) (fun b1 s1 => evalD y (KAndR k) b1 ywf s1) ywf) (eval x b ywf) (d_sF s, d_r s))) ++
+                        entries (snd (snd (smap (and_step (req_from k (Some false)) (fun b1 s1 => evalD y (KAndR k) b1 ywf s1) ywf) (eval x b ywf) (d_sF s, d_r s))))) \/
+                  In c (entries (snd (evalD x (KAndL k y) b ywf (d_l s))))).
+      { apply in_app_or in Hc as [Hc|Hc]; [left; apply in_or_app; now left|].
+        apply in_app_or in Hc as [Hc|Hc]; [now right | left; apply in_or_app; now right]. }
+      destruct G as [G|G].
+      + destruct (L2 c G) as [G'|(p & Hp & Ep)]; [|right; eapply ext_trans; [exact Ep | now apply RowExt]].
+        left. apply EP. apply in_app_or in G' as [G'|G']; apply in_or_app; right; apply in_or_app; [now left | right; apply in_or_app; now right].
+      + destruct (X2 c G) as [G'|Ec]; [|now right]. left. apply EP. apply in_or_app; right. apply in_or_app; right. apply in_or_app; now left.
+    - (* ElseIf *)
+      pose proof B as B'. cbn [EvalPure_Facts.basic] in B'. apply andb_prop in B' as [Bx By].
+      rewrite evalD_else. pose proof (entries_parts s) as EP.
+      destruct (IHx Bx (KElseL k y) true IU b (d_l s) Db) as [X1 X2].
+      { intros c Hc. apply HF, EP. apply in_or_app; right. apply in_or_app; right. apply in_or_app; now left. }
+      rewrite X1. cbn [EvalPure.eval].
+      assert (RowExt : forall p, In p (eval x b true) -> Ext (fst p) b).
+      { intros [b1 f1] Hp e A. exact (eval_ext h dom U x Bx b true b1 f1 e Hp A). }
+      assert (XE : forall c, In c (entries (snd (evalD x (KElseL k y) b true (d_l s)))) -> In c (entries s) \/ Ext c b).
+      { intros c G. destruct (X2 c G) as [G'|Ec]; [|now right]. left. apply EP. apply in_or_app; right. apply in_or_app; right. apply in_or_app; now left. }
+      destruct (eval x b true) as [|p0 ls0] eqn:El.
+      + (* the left side produced nothing: the right side on the incoming row *)
+        destruct (IHy By (KElseR k) ywf IU b (d_r s) Db) as [Y1 Y2].
+        { intros c Hc. apply HF, EP. apply in_or_app; right. apply in_or_app; right. apply in_or_app; now right. }
+        cbn [fst snd]. split; [exact Y1|].
+        intros c Hc. cbn [entries] in Hc.
+        apply in_app_or in Hc as [Hc|Hc]; [left; apply EP, in_or_app; now left|].
+        apply in_app_or in Hc as [Hc|Hc]; [left; apply EP; apply in_or_app; right; apply in_or_app; now left|].
+        apply in_app_or in Hc as [Hc|Hc]; [now apply XE|].
+        destruct (Y2 c Hc) as [G'|Ec]; [|now right]. left. apply EP. apply in_or_app; right. apply in_or_app; right. apply in_or_app; now right.
+      + rewrite <- El in *. clear El p0 ls0.
+        destruct (else_loop_nodup (req_from k (Some true)) y (KElseR k) ywf (incl_tran IU (req_from_top k _)) By (IHy By (KElseR k) ywf IU)
+                    (eval x b true) (d_sT s) (d_r s) (eval_disjoint x b true Bx)) as [L1 L2].
+        { intros [b1 f1] Hp. exact (eval_in_dom h dom U x Bx b true b1 f1 Db Hp). }
+        { intros c Hc p Hp. apply (incomp_ext c b (fst p)); [|now apply RowExt]. apply HF, EP.
+          apply in_app_or in Hc as [Hc|Hc]; apply in_or_app; [now left | right; apply in_or_app; right; apply in_or_app; now right]. }
+        cbn [fst snd]. split; [rewrite L1; reflexivity|].
+        intros c Hc. cbn [entries] in Hc.
+        assert (G : In c (fst (snd (smap (else_step (req_from k (Some true)) (fun b1 s1 => evalD y (KElseR k) b1 ywf s1)) (eval x b true) (d_sT s, d_r s))) ++
+                          entries (snd (snd (smap (else_step (req_from k (Some true)) (fun b1 s1 => evalD y (KElseR k) b1 ywf s1)) (eval x b true) (d_sT s, d_r s))))) \/
+                    In c (d_sF s) \/ In c (entries (snd (evalD x (KElseL k y) b true (d_l s))))).
+        { apply in_app_or in Hc as [Hc|Hc]; [left; apply in_or_app; now left|].
+          apply in_app_or in Hc as [Hc|Hc]; [right; now left|].
+          apply in_app_or in Hc as [Hc|Hc]; [right; now right | left; apply in_or_app; now right]. }
+        destruct G as [G|[G|G]].
+        * destruct (L2 c G) as [G'|(p & Hp & Ep)]; [|right; eapply ext_trans; [exact Ep | now apply RowExt]].
+          left. apply EP. apply in_app_or in G' as [G'|G']; apply in_or_app; [now left | right; apply in_or_app; right; apply in_or_app; now right].
+        * left. apply EP. apply in_or_app; right. apply in_or_app; now left.
+        * now apply XE.
+  Qed.
+
+  (* all variables required at the top (every variable of the query is selected): the query evaluated with the de-duplication
+     in place returns the P-model's rows, in the same order *)
+  Theorem all_selected_no_dedup sel c : basic c = true -> incl U (req_top sel) ->
+    run_queryD h dom sel (Some c) = run_query h dom sel (Some c).
+  Proof.
+    intros B IU. unfold run_queryD, run_query.
+    assert (D0 : in_dom ([] : binding)) by (intros x v L; discriminate).
+    destruct (evalD_no_dup c B (KTop (req_top sel)) false IU [] DL D0) as [E _]; [intros c0 []|].
+    now rewrite E.
   Qed.
 End DF.
